@@ -61,3 +61,17 @@ def c03_compare_orders_like_seconds(d1: int, s1: int, d2: int, s2: int) -> bool:
     b = ObsTime(2020, 2, d2, 23, 59, s2, 0)
     ka, kb = d1 * 86400 + s1, d2 * 86400 + s2
     return (a < b) == (ka < kb) and (a > b) == (ka > kb) and (a == b) == (ka == kb) and (a <= b) == (ka <= kb) and (a >= b) == (ka >= kb)
+
+
+def c04_trims_select_designated(n: int, a: int) -> bool:
+    """
+    pre: 0 <= n <= 4
+    pre: 0 <= a <= n + 1
+    post: _
+    """
+    tr = Track([Obs(ENUCoords(float(i), 0.0, 0.0), ObsTime(1970, 1, 1, 0, 0, i, 0)) for i in range(n)])
+    ids = lambda t: [int(t.getObs(i).position.getX()) for i in range(t.size())]
+    ok = ids(tr > a) == list(range(min(a, n), n)) and ids(tr < a) == list(range(0, max(0, n - a)))
+    if a >= 1:
+        ok = ok and ids(tr % a) == list(range(0, n, a))
+    return ok and ids(tr) == list(range(n))
